@@ -43,7 +43,7 @@ META = {
     "technique": "Lean 4 proof (invariant of the chain-database model preserved by import, reorganisation and rewind, by induction over "
                  "arbitrary operation histories) tied to core/ by differential correspondence on random histories",
     "text": "Theorems inv_init, inv_insertBlock, inv_insertChain, inv_setHead, inv_reopen, inv_reachable, inv_reachable_imports, spec_of_inv "
-            "(and hinv_writeHeader, hinv_insertHeaderChain, hinv_setHead, hspec_reachable for header-first imports) "
+            "(and hinv_writeHeader, hinv_insertHeaderChain, hinv_setHead, hspec_reachable for header-first imports — unconditional since 2ee9efd; insertChain_never_panics, writeHeader_refusal_keeps_index) "
             "show that in the Lean model of BlockChain/HeaderChain the number index is exactly the ancestry of the head, nothing is indexed "
             "above it, canonical blocks are retrievable and a lookup resolves iff the transaction is canonical, after every admissible "
             "history; every run re-checks them and replays hundreds of random histories on the real chain code and on the compiled model, "
